@@ -8,6 +8,22 @@
    Recover is the code's restart path (TorrentArchive.CreateTorrent -> NewTorrent ->
    restorePieces) as a function of the files.
 
+   Evict is TorrentArchive.DeleteTorrent of the committed blob (TTL cleanup, manual removal); the
+   blob can then be requested again and CreateTorrent runs on whatever an earlier crash left in the
+   download directory (e.g. the sidecars of a commit that died between the rename of the data
+   file and the removal of the download directory).
+
+   FreshOverwrites = TRUE: a freshly created download entry initializes its sidecars even when
+                          stale ones lie in its directory (as built: GetOrSetMetadata consults the
+                          entry's own in-memory set, which is empty for a new entry).  FALSE: stale
+                          sidecars are picked up -- TLC then finds the zero-filled blob committed
+                          after crash-in-commit, restart, eviction and a new request
+                          (MC_AgentCrash_stale.cfg, expected to fail; a seeded change did exactly this).
+   CleanCreate = TRUE   : creating an entry first removes whatever lies in its directory (the repaired
+                          localFileEntry.Create).  FALSE (as found): the new data file is created next
+                          to stale sidecars, and a SECOND crash before the status sidecar is rewritten
+                          lets the restart path trust the stale "all pieces complete" vector: the
+                          zero-filled file is committed (F04c; MC_AgentCrash_leftover.cfg, expected to fail).
    AtomicSidecar = TRUE : a new metadata sidecar appears with its full content in one step
                           (temp file + rename; the repaired compareAndWriteFile).
    AtomicSidecar = FALSE: create-empty then write (as built before the fix; TLC then finds
@@ -15,7 +31,7 @@
                           F04b - empty _torrentmeta makes CreateTorrent fail for good).       *)
 EXTENDS Integers, Sequences, FiniteSets
 CONSTANTS N,               \* number of pieces (0..3)
-          AtomicSidecar
+          AtomicSidecar, FreshOverwrites, CleanCreate
 Pieces == 1..N
 VARIABLES dl, ca,     \* download / cache directory entry of the blob
           prog,       \* remaining file-system operations of the running call
@@ -44,7 +60,7 @@ MoveOps == Sidecar("ca", "meta") \o Sidecar("ca", "status") \o <<[op |-> "rename
 
 AllHave(m) == \A i \in Pieces : m.has[i]
 SetSide(e, f, v) == IF f = "meta" THEN [e EXCEPT !.meta = v]
-                    ELSE [e EXCEPT !.status = v, !.bits = IF v = "vec" THEN (IF e.status = "vec" THEN e.bits ELSE [i \in Pieces |-> FALSE]) ELSE e.bits]
+                    ELSE [e EXCEPT !.status = v, !.bits = IF v = "vec" THEN (IF e.status = "vec" /\ ~FreshOverwrites THEN e.bits ELSE [i \in Pieces |-> FALSE]) ELSE e.bits]
 
 \* the commit copies the (movable) sidecars of the download entry into the cache directory
 FullCa(f) == IF f = "meta" THEN [ca EXCEPT !.meta = "full"] ELSE [ca EXCEPT !.status = "vec", !.bits = dl.bits]
@@ -53,7 +69,8 @@ Step ==
   /\ phase = "run" /\ prog # <<>>
   /\ LET o == Head(prog) rest == Tail(prog) IN
      /\ CASE o.op = "start"    -> prog' = CreateOps /\ UNCHANGED <<dl, ca, mem>>
-          [] o.op = "crData"   -> dl' = [dl EXCEPT !.data = TRUE] /\ prog' = rest /\ UNCHANGED <<ca, mem>>
+          [] o.op = "crData"   -> /\ dl' = (IF CleanCreate THEN [NoEntry EXCEPT !.data = TRUE] ELSE [dl EXCEPT !.data = TRUE])
+                                  /\ prog' = rest /\ UNCHANGED <<ca, mem>>
           [] o.op = "truncData"-> dl' = [dl EXCEPT !.region = [i \in Pieces |-> "zero"]] /\ prog' = rest /\ UNCHANGED <<ca, mem>>
           [] o.op = "empty"    -> /\ dl' = (IF o.d = "dl" THEN SetSide(dl, o.f, "empty") ELSE dl)
                                   /\ ca' = (IF o.d = "ca" THEN SetSide(ca, o.f, "empty") ELSE ca)
@@ -61,8 +78,9 @@ Step ==
           [] o.op = "full"     -> /\ dl' = (IF o.d = "dl" THEN SetSide(dl, o.f, IF o.f = "meta" THEN "full" ELSE "vec") ELSE dl)
                                   /\ ca' = (IF o.d = "ca" THEN FullCa(o.f) ELSE ca)
                                   /\ prog' = rest /\ UNCHANGED mem
-          [] o.op = "memNew"   -> /\ mem' = [alive |-> TRUE, has |-> [i \in Pieces |-> FALSE], committed |-> FALSE]
-                                  /\ prog' = (IF N = 0 THEN MoveOps ELSE rest)
+          \* NewTorrent: restorePieces reads the status sidecar that is now in the directory
+          [] o.op = "memNew"   -> /\ mem' = [alive |-> TRUE, has |-> [i \in Pieces |-> dl.status = "vec" /\ dl.bits[i]], committed |-> FALSE]
+                                  /\ prog' = (IF AllHave(mem') THEN MoveOps ELSE rest)
                                   /\ UNCHANGED <<dl, ca>>
           [] o.op = "wrData"   -> dl' = [dl EXCEPT !.region[o.i] = o.c] /\ prog' = rest /\ UNCHANGED <<ca, mem>>
           [] o.op = "wrBit"    -> dl' = [dl EXCEPT !.bits[o.i] = TRUE] /\ prog' = rest /\ UNCHANGED <<ca, mem>>
@@ -79,6 +97,11 @@ Step ==
 Deliver(i, c) ==
   /\ phase = "run" /\ prog = <<>> /\ mem.alive /\ ~mem.committed /\ ~mem.has[i]
   /\ prog' = WriteOps(i, c) /\ UNCHANGED <<dl, ca, mem, phase, todo>>
+
+\* TorrentArchive.DeleteTorrent of the committed blob; the next request starts from CreateTorrent
+Evict == /\ phase = "run" /\ prog = <<>> /\ mem.alive /\ mem.committed
+         /\ ca' = NoEntry /\ mem' = NoMem /\ prog' = <<[op |-> "start"]>> /\ todo' = Pieces
+         /\ UNCHANGED <<dl, phase>>
 
 Crash == /\ phase = "run" /\ phase' = "crashed" /\ prog' = <<>> /\ mem' = NoMem /\ UNCHANGED <<dl, ca, todo>>
 
@@ -104,7 +127,7 @@ Recover ==
                                   /\ UNCHANGED ca
 Resume == phase = "recovered" /\ phase' = "run" /\ UNCHANGED <<dl, ca, prog, mem, todo>>
 
-Next == Step \/ Crash \/ Recover \/ Resume \/ \E i \in Pieces, c \in {"good", "bad"} : Deliver(i, c)
+Next == Step \/ Crash \/ Evict \/ Recover \/ Resume \/ \E i \in Pieces, c \in {"good", "bad"} : Deliver(i, c)
 Spec == Init /\ [][Next]_vars
 FairSpec == Spec /\ WF_vars(Step) /\ WF_vars(Recover) /\ WF_vars(Resume)
                  /\ \A i \in Pieces : WF_vars(Deliver(i, "good"))
@@ -132,4 +155,5 @@ RecoverAllowed(res, complete, bits, region, served, cacheok) ==
   /\ served => cacheok
   /\ \A i \in 1..Len(bits) : bits[i] => region[i]
 ResumeAllowed(res, complete, cacheok) == res = "ok" /\ complete /\ cacheok
+EvictAllowed(res, served) == res = "ok" /\ ~served
 =============================================================================
